@@ -262,6 +262,7 @@ TARGETS = {
     "hist": ["targets/hist_run.cpp", "targets/hist_s1.cpp", "targets/hist_s2.cpp",
              "targets/hist_s3.cpp", "targets/hist_s4.cpp"],
     "fence": ["targets/fence.cpp"],
+    "comp": ["targets/comp.cpp"],
 }
 
 
